@@ -60,6 +60,15 @@ pub mod synth {
     pub struct Pressure {}
 
     #[quantity]
+    #[ref_unit(Coulomb, "C", NONE)]
+    #[unit(Attocoulomb, "aC", ATTO, 0.000000000000000001)]
+    #[unit(Dozen_Attocoulomb, "daC", 0.000000000000000024)]
+    #[unit(Decifemtocoulomb, "dfC", 0.0000000000000001)]
+    #[unit(Femtocoulomb, "fC", FEMTO, 0.000000000000001)]
+    /// distinct scales that lie closer together than f64::EPSILON
+    pub struct Charge {}
+
+    #[quantity]
     #[ref_unit(Grain, "gr", NONE, "reference unit")]
     #[unit(Milligrain, "mgr", MILLI, 0.001)]
     #[unit(Scruple, "sc", 20)]
@@ -102,3 +111,5 @@ PRESSURE = QtySpec("crate", "synth", "Pressure", "Pascal", [
     U("Millipascal", "m11", "MILLI", F("1/1000")),
 ])
 PRESSURE.decl = ['Centibar', 'Pieze', 'Inch_Mercury', 'Atmosphere', 'Bar', 'Technical_Atmosphere', 'Foot_Water', 'Newton_per_Square_Millimeter', 'Megapascal', 'Gigapascal', 'Millimeter_Mercury', 'Pascal', 'Pound_per_Square_Inch', 'Decibar', 'Newton_per_Square_Meter', 'Micropascal', 'Barye', 'Millibar', 'Kip_per_Square_Inch', 'Hectopascal', 'Joule_per_Cubic_Meter', 'Torr', 'Kilopascal', 'Millipascal']
+CHARGE = QtySpec("crate", "synth", "Charge", "Coulomb", [U("Coulomb", "C", "NONE", 1), U("Attocoulomb", "aC", "ATTO", F(1, 10 ** 18)),
+                                                         U("Dozen_Attocoulomb", "daC", None, F(24, 10 ** 18)), U("Decifemtocoulomb", "dfC", None, F(1, 10 ** 16)), U("Femtocoulomb", "fC", "FEMTO", F(1, 10 ** 15))])
